@@ -756,7 +756,7 @@ func c15NumSources(tier string) int {
 }
 
 func c15Cases(tier string) int {
-	return (len(c15Ops())+1)*c15NumSources(tier) + c15KillCases(tier) + c15LimitCases(tier) + c15CLICases(tier)
+	return (len(c15Ops())+1)*c15NumSources(tier) + c15KillCases(tier) + c15LimitCases(tier) + c15CLICases(tier) + c15SysCases(tier)
 }
 
 func c15Run(c *core.C, idx int) {
@@ -784,8 +784,10 @@ func c15Run(c *core.C, idx int) {
 		c15Kill(c, idx-n1)
 	case idx < n1+c15KillCases(c.Tier)+c15LimitCases(c.Tier):
 		c15Limit(c, idx-n1-c15KillCases(c.Tier))
-	default:
+	case idx < n1+c15KillCases(c.Tier)+c15LimitCases(c.Tier)+c15CLICases(c.Tier):
 		c15CLI(c, idx-n1-c15KillCases(c.Tier)-c15LimitCases(c.Tier))
+	default:
+		c15Sys(c, idx-n1-c15KillCases(c.Tier)-c15LimitCases(c.Tier)-c15CLICases(c.Tier))
 	}
 }
 
@@ -796,16 +798,18 @@ func init() {
 		Rule: "for each of 19 write operations (Copy/CopyPath/CopyReadObject/PutPath/CopyReader/ForWriteObject ± atomic, Untar, Unzip, Tar, Zip, PutFileSetToBucket, bufconfig Put*FileForPrefix) + the generated-file flush, " +
 			"and each source bucket (0..12 files, empty/small/100 kB contents): a fault-free dry run counts the Put/Write/Close events, then every single position k (error; short write+error) is injected through a wrapper bucket/writer, " +
 			"and on a real disk bucket through the storageos hook points os.write/os.close plus real EISDIR failures; thorough adds all pairs. Atomic-put kill enumeration: a child process overwrites one path with PutWithAtomic and is SIGKILLed at every hit of every hook point while a reader polls; " +
-			"LimitWriteBucket at every byte budget; `buf export` onto a blocked output. distinct/non-trivial = distinct (operation, source size, number of fault positions) classes; fault_positions counts distinct (operation, position)",
+			"LimitWriteBucket at every byte budget; `buf export` onto a blocked output. System-call part: the built buf binary runs 15 writing commands (build -o binpb/json.gz/txtpb.zst/yaml/stdout, export, format -w/-o dir/-o file, generate to dir/zip/jar, config init, config migrate, convert) under strace, which fails the first write (ENOSPC), second write, close (EIO), open (EMFILE), rename (EIO) or mkdir (EACCES) on each output path in turn; exit status and the files left behind are judged. distinct/non-trivial = distinct (operation, source size, number of fault positions) classes; fault_positions counts distinct (operation, position)",
 		Assumptions: []string{
 			"crash = SIGKILL of the writing process at hook-point granularity; power loss / page-cache durability is not modelled (the code never fsyncs)",
 			"after SIGKILL an orphan .tmp* sibling may remain; it is not the object at the path and is not counted as a violation (it is counted in evidence)",
 			"wrapper faults on Close still close the delegate (the resource is released) and then return the error",
+			"system-call part: strace addresses a position by (output path, system call, first/second occurrence on a thread); temporary files of atomic puts have random names and are reached only through the rename onto the final path (their writes are covered by the in-process os.write hook)",
+			"a failed close or open of a descriptor that was opened read-only does not have to fail the command; only completeness of the outputs is demanded then",
 		},
 		Exhaustive: true,
 		Cases:      c15Cases,
 		Run:        c15Run,
-		Needs:      []string{"buf"},
-		Required:   []string{"faults_fired", "disk_fault_runs", "real_failure_runs", "kill_runs", "reader_observations", "limit_runs", "post_kill_followup_puts"},
+		Needs:      []string{"buf", "plugins"},
+		Required:   []string{"faults_fired", "disk_fault_runs", "real_failure_runs", "kill_runs", "reader_observations", "limit_runs", "post_kill_followup_puts", "sys_faults_fired", "sys_atomic_rename_failures", "sys_success_outputs_compared"},
 	})
 }
